@@ -7,11 +7,15 @@ import (
 	"fmt"
 	"io"
 	"os"
+	"os/signal"
 	"path/filepath"
 	"sort"
+	"syscall"
+	"time"
 
 	"github.com/ipfs/go-cid"
 	carv2 "github.com/ipld/go-car/v2"
+	"github.com/ipld/go-car/v2/index"
 	"github.com/multiformats/go-multicodec"
 	"github.com/multiformats/go-varint"
 )
@@ -75,15 +79,72 @@ func xerr(err error) Val {
 	return verr(err)
 }
 
+// c10MaxReadBack bounds every read-back: a file larger than this is reported by its size only
+// (the model never produces such an observation, so it shows up as a difference, not as a hang).
+const c10MaxReadBack = 16 << 20
+
 func c10FileVal(path string) Val {
-	b, err := os.ReadFile(path)
+	st, err := os.Stat(path)
 	if err != nil {
 		if os.IsNotExist(err) {
 			return VL{VT("absent")}
 		}
 		panic(err)
 	}
+	if st.Size() > c10MaxReadBack {
+		return VL{VT("big"), VN(uint64(st.Size()))}
+	}
+	b, err := os.ReadFile(path)
+	if err != nil {
+		panic(err)
+	}
 	return VL{VT("file"), VB(b)}
+}
+
+// c10Stuck is set when an implementation call did not return within the watchdog's time; the
+// producer then stops issuing further cases (the case already emitted carries (ttimeout)).
+var c10Stuck bool
+
+const c10Watchdog = 30 * time.Second
+
+func init() {
+	// writes beyond RLIMIT_FSIZE must come back as EFBIG, not kill the harness
+	signal.Ignore(syscall.SIGXFSZ)
+}
+
+// c10Guarded runs one implementation call under two bounds: no file may grow beyond a size
+// derived from the input (soft RLIMIT_FSIZE for the duration of the call: a transform that keeps
+// copying a file onto itself ends with an error instead of filling the disk), and a watchdog.
+func c10Guarded(inputLen int, fn func() Val) Val {
+	if c10Stuck {
+		return VL{VT("skipped-after-timeout")}
+	}
+	var old syscall.Rlimit
+	haveOld := syscall.Getrlimit(syscall.RLIMIT_FSIZE, &old) == nil
+	if haveOld {
+		lim := old
+		lim.Cur = uint64(4*inputLen + 1<<20)
+		if lim.Cur > old.Max {
+			lim.Cur = old.Max
+		}
+		syscall.Setrlimit(syscall.RLIMIT_FSIZE, &lim)
+	}
+	restore := func() {
+		if haveOld {
+			syscall.Setrlimit(syscall.RLIMIT_FSIZE, &old)
+		}
+	}
+	done := make(chan Val, 1)
+	go func() { done <- fn() }()
+	select {
+	case v := <-done:
+		restore()
+		return v
+	case <-time.After(c10Watchdog):
+		restore()
+		c10Stuck = true
+		return VL{VT("timeout")}
+	}
 }
 
 func memFileVal(b []byte) Val { return VL{VT("file"), VB(append([]byte{}, b...))} }
@@ -216,7 +277,7 @@ func canonIndex(out []byte, start int) ([]byte, bool) {
 
 func canonFileVal(v Val, start int, c *Ctx) Val {
 	l := v.(VL)
-	if len(l) != 2 {
+	if len(l) != 2 || string(l[0].(VT)) != "file" {
 		return v
 	}
 	b, had := canonIndex([]byte(l[1].(VB)), start)
@@ -232,6 +293,10 @@ func canonFileVal(v Val, start int, c *Ctx) Val {
 // 2: WrapV1File over an existing file; 3: WrapV1File onto the source path;
 // 4: WrapV1(*os.File, *os.File, opts) to an absent path
 func runWrapImpl(c *Ctx, o xOpts, mode uint64, x []byte, existing []byte) Val {
+	return c10Guarded(len(x)+len(existing), func() Val { return c10WrapImpl(c, o, mode, x, existing) })
+}
+
+func c10WrapImpl(c *Ctx, o xOpts, mode uint64, x []byte, existing []byte) Val {
 	idxStart := 51 + len(x)
 	if mode == 0 {
 		var dst bytes.Buffer
@@ -290,7 +355,18 @@ func placeDest(d string, srcP string, dest Val) string {
 	return filepath.Join(d, "dst.car")
 }
 
+func c10DestLen(dest Val) int {
+	if l := dest.(VL); len(l) > 1 {
+		return len(l[1].(VB))
+	}
+	return 0
+}
+
 func runExtractImpl(c *Ctx, o xOpts, a []byte, dest Val) Val {
+	return c10Guarded(len(a)+c10DestLen(dest), func() Val { return c10ExtractImpl(c, o, a, dest) })
+}
+
+func c10ExtractImpl(c *Ctx, o xOpts, a []byte, dest Val) Val {
 	d := xdir(c)
 	defer os.RemoveAll(d)
 	srcP := filepath.Join(d, "src.car")
@@ -303,6 +379,10 @@ func runExtractImpl(c *Ctx, o xOpts, a []byte, dest Val) Val {
 // ---- xrtrip -------------------------------------------------------------------------------
 // input (opts, x, dest, hdr table, c): wrap x into tmp, extract tmp to dest ((tsame) = in place)
 func runRtripImpl(c *Ctx, o xOpts, x []byte, dest Val) Val {
+	return c10Guarded(len(x)+c10DestLen(dest), func() Val { return c10RtripImpl(c, o, x, dest) })
+}
+
+func c10RtripImpl(c *Ctx, o xOpts, x []byte, dest Val) Val {
 	d := xdir(c)
 	defer os.RemoveAll(d)
 	srcP := filepath.Join(d, "x.car")
@@ -358,6 +438,10 @@ func rootsOfVal(v Val) []cid.Cid {
 }
 
 func runReplaceImpl(c *Ctx, o xOpts, a []byte, roots []cid.Cid) Val {
+	return c10Guarded(len(a), func() Val { return c10ReplaceImpl(c, o, a, roots) })
+}
+
+func c10ReplaceImpl(c *Ctx, o xOpts, a []byte, roots []cid.Cid) Val {
 	d := xdir(c)
 	defer os.RemoveAll(d)
 	p := filepath.Join(d, "f.car")
@@ -408,4 +492,159 @@ func init() {
 		l := in.(VL)
 		return runReplaceImpl(c, xoptsOfVal(l[0]), []byte(l[1].(VB)), rootsOfVal(l[2]))
 	})
+}
+
+// ---- xwrapmany ----------------------------------------------------------------------------
+// A CARv1 with very many sections through WrapV1, judged by layer B only (the executable model of
+// LoadIndex re-reads the file per section and is quadratic): input (opts, n, seed, idEvery)
+// describes the archive (n distinct blocks; every idEvery-th has an identity CID), the observation
+// is (error, sections, sections that must be indexed, of those how many the appended index resolves
+// to their offset through index.ReadFrom + GetAll, records in the index, payload verbatim and
+// nothing after the index).
+func c10ManyArchive(n int, seed uint64, idEvery int) ([]Blk, []uint64, []byte) {
+	blks := make([]Blk, 0, n)
+	for i := 0; i < n; i++ {
+		data := make([]byte, 12)
+		binary.LittleEndian.PutUint64(data, seed)
+		binary.LittleEndian.PutUint32(data[8:], uint32(i))
+		switch {
+		case idEvery > 0 && i%idEvery == idEvery-1:
+			blks = append(blks, Blk{mkCid(1, 0x55, 0x00, -1, data), data})
+		case i%5 == 0:
+			blks = append(blks, Blk{mkCid(1, 0x71, 0x13, -1, data), data}) // sha2-512: a second bucket
+		default:
+			blks = append(blks, Blk{mkCid(1, 0x55, 0x12, -1, data), data})
+		}
+	}
+	roots := []cid.Cid{blks[0].Cid}
+	payload := refPayload(roots, blks)
+	offs := make([]uint64, n)
+	pos := uint64(len(refPayload(roots, nil)))
+	for i, b := range blks {
+		offs[i] = pos
+		sl := uint64(b.Cid.ByteLen() + len(b.Data))
+		pos += sl + uint64(uvarintLen(sl))
+	}
+	return blks, offs, payload
+}
+
+func runWrapManyImpl(c *Ctx, o xOpts, n int, seed uint64, idEvery int) Val {
+	blks, offs, payload := c10ManyArchive(n, seed, idEvery)
+	return c10Guarded(len(payload), func() Val {
+		d := xdir(c)
+		defer os.RemoveAll(d)
+		srcP := filepath.Join(d, "src.car")
+		dstP := filepath.Join(d, "dst.car")
+		mustWrite(srcP, payload)
+		err := func() error {
+			src, err := os.Open(srcP)
+			if err != nil {
+				return err
+			}
+			defer src.Close()
+			dst, err := os.Create(dstP)
+			if err != nil {
+				return err
+			}
+			defer dst.Close()
+			if err := carv2.WrapV1(src, dst, o.v2()...); err != nil {
+				return err
+			}
+			return dst.Close()
+		}()
+		if err != nil {
+			return VL{xerr(err), VN(uint64(n)), VN(0), VN(0), VN(0), VN(0)}
+		}
+		fv := c10FileVal(dstP)
+		if string(fv.(VL)[0].(VT)) != "file" {
+			return VL{VT("nil"), VN(uint64(n)), VN(0), VN(0), VN(0), VN(0)}
+		}
+		out := []byte(fv.(VL)[1].(VB))
+		verbatim := len(out) >= 51+len(payload) && bytes.Equal(out[:11], carv2.Pragma) && bytes.Equal(out[51:51+len(payload)], payload)
+		var want, resolved, records uint64
+		if verbatim {
+			ir := bytes.NewReader(out[51+len(payload):])
+			idx, err := index.ReadFrom(ir)
+			if err != nil || ir.Len() != 0 {
+				verbatim = false
+			} else {
+				for i, b := range blks {
+					if !o.storeID && b.Cid.Prefix().MhType == 0 {
+						continue
+					}
+					want++
+					found := false
+					idx.GetAll(b.Cid, func(off uint64) bool {
+						if off == offs[i] {
+							found = true
+						}
+						return !found
+					})
+					if found {
+						resolved++
+					}
+				}
+				records = c10CountRecords(out[51+len(payload):])
+			}
+		}
+		return VL{VT("nil"), VN(uint64(n)), VN(want), VN(resolved), VN(records), vbool(verbatim)}
+	})
+}
+
+func init() {
+	registerReplay("xwrapmany", func(c *Ctx, in Val) Val {
+		l := in.(VL)
+		return runWrapManyImpl(c, xoptsOfVal(l[0]), int(l[1].(VN)), uint64(l[2].(VN)), int(l[3].(VN)))
+	})
+}
+
+// c10CountRecords counts the records of a serialized index (both sorted codecs) from its bytes.
+func c10CountRecords(p []byte) uint64 {
+	codec, n, err := varint.FromUvarint(p)
+	if err != nil {
+		return 0
+	}
+	p = p[n:]
+	var total uint64
+	mwi := func(p []byte) ([]byte, bool) {
+		if len(p) < 4 {
+			return nil, false
+		}
+		cnt := int(binary.LittleEndian.Uint32(p))
+		p = p[4:]
+		for i := 0; i < cnt; i++ {
+			if len(p) < 12 {
+				return nil, false
+			}
+			w := uint64(binary.LittleEndian.Uint32(p))
+			l := binary.LittleEndian.Uint64(p[4:])
+			p = p[12:]
+			if w < 8 || l > uint64(len(p)) {
+				return nil, false
+			}
+			total += l / w
+			p = p[l:]
+		}
+		return p, true
+	}
+	switch multicodec.Code(codec) {
+	case multicodec.CarIndexSorted:
+		mwi(p)
+	case multicodec.CarMultihashIndexSorted:
+		if len(p) < 4 {
+			return 0
+		}
+		cnt := int(binary.LittleEndian.Uint32(p))
+		p = p[4:]
+		for i := 0; i < cnt; i++ {
+			if len(p) < 8 {
+				return total
+			}
+			var ok bool
+			if p, ok = mwi(p[8:]); !ok {
+				return total
+			}
+		}
+	}
+	return total
 }
